@@ -3,40 +3,9 @@ C15 — references between entries resolve to the referenced entry's final posit
 -/
 import JubakoModel.Model.Refs
 import JubakoModel.Lemmas.Codec
+import JubakoModel.Lemmas.Refs
 
 namespace Jubako
-
-/-- invariant: the cells hold the positions of the current order -/
-def CellsOk (s : FinSt) : Prop := ∀ e, s.cells e = s.order.idxOf e
-
-theorem cellsOk_after_setIdx (s : FinSt) : CellsOk (s.step .setIdx) := by
-  intro e; rfl
-
-/-- running `finalize`'s step sequence, whatever each sort pass returns, leaves the cells equal to
-    the positions in the final order, and the final order is the result of the last pass (or the
-    insertion order when the store is not sorted) -/
-theorem finalize_cells (order0 : List Nat) (cells0 : Cells) (passes : List (List Nat)) :
-    let s := (FinSt.mk order0 cells0).run (finalizeSteps passes)
-    CellsOk s ∧ s.order = passes.getLastD order0 := by
-  simp only [FinSt.run, finalizeSteps, List.foldl_cons]
-  have key : ∀ (passes : List (List Nat)) (s : FinSt), CellsOk s →
-      CellsOk ((passes.map (fun p => [FinStep.sort p, FinStep.setIdx])).flatten.foldl FinSt.step s) ∧
-      ((passes.map (fun p => [FinStep.sort p, FinStep.setIdx])).flatten.foldl FinSt.step s).order
-        = passes.getLastD s.order := by
-    intro passes
-    induction passes with
-    | nil => intro s h; exact ⟨h, rfl⟩
-    | cons p rest ih =>
-      intro s _
-      simp only [List.map_cons, List.flatten_cons, List.cons_append, List.nil_append, List.foldl_cons]
-      have h1 : CellsOk ((s.step (.sort p)).step .setIdx) := cellsOk_after_setIdx _
-      obtain ⟨a, b⟩ := ih ((s.step (.sort p)).step .setIdx) h1
-      refine ⟨a, ?_⟩
-      rw [b]
-      cases rest with
-      | nil => rfl
-      | cons q qs => simp [List.getLastD, FinSt.step]
-  exact key passes ((FinSt.mk order0 cells0).step .setIdx) (cellsOk_after_setIdx _)
 
 /-- **Handles and references**, for every reference graph and every outcome of the sort passes:
     once `finalize` has run, (1) the handle returned when entry `e` was added reports `e`'s final
@@ -85,6 +54,53 @@ theorem c15_width (positions : List Nat) (p : Nat) (hp : p ∈ positions) :
   apply leNat_leBytes_of_lt
   have := (neededBytes_spec (listMax positions)).1
   omega
+
+/-! ### File level
+
+`DirRefIn` (Model/Refs.lean) is the writer's input with deferred values: entries in insertion order,
+each value plain or a reference to the entry added as number `t`.  `d.finalize passes` is what
+`EntryStore::finalize` and the serialisation make of it for an arbitrary outcome `passes` of the
+sort passes (empty: unsorted store); `dirPackWrite` / `dirGetEntry` are the file-level writer and
+reader of C02. -/
+
+/-- **References at file level.**  For every input with deferred values, every outcome of the sort
+    passes whose final order is a permutation of the entries, provided the finalised input is
+    well formed and within the format limits (as in `c02_file_roundtrip`): for every entry `e`
+    (by insertion number)
+    * the handle returned by `add_entry` reports `pos`, the position of `e` in the final order;
+    * decoding entry `pos` out of the *bytes of the written pack* gives `e`'s variant and values,
+      where every reference to an entry `t` reads as the final position of `t` — forward,
+      backward, self references and chains alike, sorted or not. -/
+theorem c15_file_refs (H : Bytes → Bytes) (vendor uuid freeData : Bytes) (d : DirRefIn)
+    (passes : List (List Nat))
+    (hperm : (d.finalOrder passes).Perm (List.range d.entries.length))
+    (hwf : (d.finalize passes).WF) (hl : (d.finalize passes).Limits H vendor uuid freeData)
+    (e : Nat) (he : e < d.entries.length) :
+    let pos := (d.finalOrder passes).idxOf e
+    d.boundOf passes e = pos ∧ pos < d.entries.length ∧
+    dirGetEntry (dirPackWrite H vendor uuid freeData (d.finalize passes)) 0 pos =
+      .ok (expectedEntry d.schema (d.entries[e].resolve (fun t => (d.finalOrder passes).idxOf t))) := by
+  obtain ⟨hlen, hget⟩ := d.finalize_entries passes hperm
+  obtain ⟨hpos, hent⟩ := hget e he
+  refine ⟨d.boundOf_eq passes e, hpos, ?_⟩
+  have hi : (d.finalOrder passes).idxOf e < (d.finalize passes).entries.length := by rw [hlen]; exact hpos
+  have := dirGetEntry_dirPackWrite H vendor uuid freeData (d.finalize passes) hwf hl _ hi
+  rw [this]
+  have h2 : (d.finalize passes).entries[(d.finalOrder passes).idxOf e] =
+      d.entries[e].resolve (fun t => (d.finalOrder passes).idxOf t) := by
+    have := List.getElem?_eq_getElem hi
+    rw [hent] at this
+    exact (Option.some.inj this).symm
+  rw [h2]
+  rfl
+
+/-- … in particular the `j`-th value of the stored entry, when it was given as a reference to the
+    entry added as number `t`, is the unsigned integer `final position of t` -/
+theorem c15_file_ref_value (d : DirRefIn) (passes : List (List Nat)) (e j t : Nat)
+    (he : e < d.entries.length) (hj : d.entries[e].values[j]? = some (.ref t)) :
+    (d.entries[e].resolve (fun x => (d.finalOrder passes).idxOf x)).values[j]? =
+      some (.u ((d.finalOrder passes).idxOf t)) := by
+  simp [EntryRefIn.resolve, hj, ValIn.resolve, refValue]
 
 /-- non-vacuity: three entries, a sort that reverses them, self / forward / backward references -/
 example :
